@@ -275,11 +275,12 @@ func checkC05(tier string) int {
 	genRejected := 0
 	for i := 0; i < nGen; i++ {
 		gr := prng.Stream(seed, "heapsim", "gen", i)
-		gp := genOwnProgram(gr, i)
-		cfg := allCfgs()[gr.Intn(6)]
-		if gr.Chance(0.5) {
+		cr := prng.Stream(seed, "heapsim", "gencfg", i)
+		cfg := allCfgs()[cr.Intn(6)]
+		if cr.Chance(0.5) {
 			cfg.O = 2
 		}
+		gp := genOwnProgram(gr, i, cfg.O >= 2)
 		pols := []HeapPolicy{strictPolicy, drawPolicy(gr)}
 		jobs = append(jobs, &heapJob{Prog: gp, Cfg: cfg, Policies: pols})
 	}
@@ -411,6 +412,12 @@ func checkC05(tier string) int {
 		if replayHeapStored(tc, filepath.Join(verifDir, kf.Replay)) {
 			fmt.Printf("KNOWN-FINDING: property=C05 %s (reproducer %s still fails; %d builds of this sweep hit it)\n", kf.What, kf.Replay, knownHit[kf.Inv+"|"+kf.Sig])
 		}
+		// a recorded finding is scoped to the configuration it was recorded under: the same reproducer failing under
+		// any other optimisation level is a different violation
+		if other := knownFailsElsewhere(tc, filepath.Join(verifDir, kf.Replay)); other != "" {
+			newViol++
+			fmt.Printf("VIOLATION property=C05 replay=%s\n  the reproducer of a finding recorded for another configuration also fails under %s\n", filepath.Join(verifDir, kf.Replay), other)
+		}
 	}
 	ev := &Evidence{PropertyID: "C05", Tier: tier, Seed: int64(seed), Level: "exploration", Violations: newViol}
 	ev.Coverage = map[string]any{
@@ -490,3 +497,33 @@ var reModHash = regexp.MustCompile(`_mod_[0-9a-f]{16,}`)
 
 // normSym removes the path-derived module hash from a mangled DDP symbol.
 func normSym(s string) string { return reModHash.ReplaceAllString(s, "") }
+
+// knownFailsElsewhere runs a stored reproducer under the optimisation levels it was NOT recorded for and
+// returns the first configuration under which any C05 invariant fails ("" if none).
+func knownFailsElsewhere(tc *Toolchain, path string) string {
+	b, err := os.ReadFile(path)
+	if err != nil {
+		return ""
+	}
+	var rp heapReplay
+	if json.Unmarshal(b, &rp) != nil {
+		return ""
+	}
+	p := &HProg{Name: rp.Name, Root: rp.Root, Files: rp.Files, Stdin: rp.Stdin}
+	for _, o := range []int{0, 1, 2} {
+		if o == rp.Cfg.O {
+			continue
+		}
+		cfg := rp.Cfg
+		cfg.O = o
+		j := &heapJob{Prog: p, Cfg: cfg, Policies: []HeapPolicy{rp.Policy}}
+		out := runHeapJob(tc, j, tc.Kddp, filepath.Join(workRoot, fmt.Sprintf("hk%d", nextReplayIdx())))
+		if out.BuildRC != 0 || len(out.Runs) == 0 {
+			continue
+		}
+		if vs := evalHeapRunWithExe(tc, out); len(vs) > 0 {
+			return fmt.Sprintf("%s: %s", cfg, vs[0].Detail)
+		}
+	}
+	return ""
+}
